@@ -245,9 +245,18 @@ impl TraceCase {
 
 pub fn script(allow_h2: bool) -> impl Strategy<Value = Script> {
     let h2: BoxedStrategy<Script> = if allow_h2 {
-        crate::props::c09::exchange()
-            .prop_map(|e| match e {
-                crate::props::c09::Exchange::H2 { req, resp } => Script::Http2 { req, resp },
+        (crate::props::c09::exchange(), prop_oneof![4 => Just(0u8), 1 => prop_oneof![Just(0x08u8), Just(0x20u8), Just(0x28u8), Just(0x04u8), Just(0x0cu8)]], any::<bool>())
+            .prop_map(|(e, xor, on_response)| match e {
+                // a fifth of the HTTP/2 connections carry a HEADERS frame whose flags claim octets that are not there
+                // (PADDED / PRIORITY without their fields: the first block octets are then read as pad length / dependency)
+                crate::props::c09::Exchange::H2 { mut req, mut resp } => {
+                    if on_response {
+                        resp.flag_xor = xor;
+                    } else {
+                        req.flag_xor = xor;
+                    }
+                    Script::Http2 { req, resp }
+                }
                 crate::props::c09::Exchange::H1 { req, resp, resp_body, .. } => Script::Http1 { req, resp, resp_body },
             })
             .boxed()
